@@ -517,6 +517,18 @@ pub fn run(input: &[u8], scn: &str, rec: &mut Rec) {
                     }
                 }
                 let pr = if probe { Some(attach_probe(&mut p2, if o.has("roots") { Some((input, &mut *rec)) } else { None })) } else { None };
+                // (for "uselocal": which locals carry a generated name, noted before the pass runs)
+                let mut picked: Vec<(walrus::LocalId, usize, String)> = Vec::new();
+                if o.has("uselocal") {
+                    for l in p2.module.locals.iter() {
+                        if let Some(n) = &l.name {
+                            let mut it = n.strip_prefix("$l_").unwrap_or("").split('_');
+                            if let (Some(Ok(f)), Some(Ok(_li)), None) = (it.next().map(|x| x.parse::<usize>()), it.next().map(|x| x.parse::<usize>()), it.next()) {
+                                picked.push((l.id(), f, n.clone()));
+                            }
+                        }
+                    }
+                }
                 match guarded(|| walrus::passes::gc::run(&mut p2.module)) {
                     Err(pan) => rec.push_s("panic.gc.run", &pan),
                     Ok(()) => {
@@ -538,15 +550,6 @@ pub fn run(input: &[u8], scn: &str, rec: &mut Rec) {
                             // far (their names, "$l_<function>_<index>" in generated modules, say where they belong), and
                             // the module is emitted again - the locals are emitted now, so are their names
                             let ids = p2.onparse.lock().unwrap().ids.clone();
-                            let mut picked: Vec<(walrus::LocalId, usize, String)> = Vec::new();
-                            for l in p2.module.locals.iter() {
-                                if let Some(n) = &l.name {
-                                    let mut it = n.strip_prefix("$l_").unwrap_or("").split('_');
-                                    if let (Some(Ok(f)), Some(Ok(_li)), None) = (it.next().map(|x| x.parse::<usize>()), it.next().map(|x| x.parse::<usize>()), it.next()) {
-                                        picked.push((l.id(), f, n.clone()));
-                                    }
-                                }
-                            }
                             let mut lines = Vec::new();
                             let r = guarded(|| {
                                 let mut k = 0i64;
